@@ -1,86 +1,11 @@
-import CoercionModel.Model.Builder
+import CoercionModel.Model.BuilderRef
 set_option linter.unusedSimpArgs false
 /-
-  The reference ("directly constructing the same hierarchy") for the builder: a bottom-up interpreter
-  that keeps a stack of OPEN objects and attaches a child to its parent only when it is closed (by
-  `Up`, or by `Plan()` at the end) — each object is complete before it is placed, as in a hand-written
-  composite literal. The Go builder does the opposite (links the child at once and keeps mutating it
-  through the pointer); `Builder.step` mirrors that. `sim_step` shows the two agree call by call.
+  Proofs/BuilderRef — the Go builder's model (`Builder.step`, top-down, in-place) simulates the bottom-up
+  reference (`Model/BuilderRef`) call by call: `sim_step`, `sim_run`, `rejected_call_errors`.
 -/
 namespace Coercion.Builder
 open Coercion
-
-/-- open objects, innermost last in construction order: an optional open block, inside it (or at plan
-    level) an optional open group or sequence -/
-structure Z where
-  plan  : Plan := {}                         -- closed part: everything already attached to the plan
-  blk   : Option Block := none               -- the open block, not yet attached
-  grp   : Option (GKind × Checks) := none    -- the open check group (of the open block, or of the plan)
-  sq    : Option Sequence := none            -- the open sequence (of the open block)
-  deriving Repr, Inhabited
-
-def closeGrpOnBlock (b : Block) : Option (GKind × Checks) → Block
-  | none => b
-  | some (k, c) => b.setGrp k (some c)
-
-def closeSeqOnBlock (b : Block) : Option Sequence → Block
-  | none => b
-  | some q => { b with seqs := b.seqs ++ [q] }
-
-/-- attach everything that is still open, innermost first: the finished plan -/
-def finish (z : Z) : Plan :=
-  match z.blk with
-  | some b =>
-    let b' := closeSeqOnBlock (closeGrpOnBlock b z.grp) z.sq
-    { z.plan with blocks := z.plan.blocks ++ [b'] }
-  | none =>
-    match z.grp with
-    | some (k, c) => z.plan.setGrp k (some c)
-    | none => z.plan
-
-/-- the position the Go builder is at, read off the open objects -/
-def posOf (z : Z) : Pos :=
-  match z.blk, z.grp, z.sq with
-  | none, none, _ => .plan
-  | none, some (k, _), _ => .planGroup k
-  | some _, none, none => .block
-  | some _, some (k, _), _ => .blockGroup k
-  | some _, none, some _ => .seq
-
-/-- well-formed stacks: a sequence only inside a block, never together with an open group -/
-def ZWF (z : Z) : Prop := (z.sq.isSome → z.blk.isSome ∧ z.grp = none)
-
-/-- the reference interpreter on a call that the builder accepts (anything else: `none`) -/
-def zstep (z : Z) : Call → Option Z
-  | .addChecks (some k) (some (c, false)) =>
-    (match z.blk, z.grp, z.sq with
-     | none, none, _ => if (z.plan.grp k).isSome then none else some { z with grp := some (k, c) }
-     | some b, none, none => if (b.grp k).isSome then none else some { z with grp := some (k, c) }
-     | _, _, _ => none)
-  | .addBlock a =>
-    if a.name = "" ∨ a.descr = "" then none else
-    (match z.blk, z.grp with
-     | none, none => some { z with blk := some { key := a.key, name := a.name, descr := a.descr, entrance := a.entrance, exit := a.exit, conc := a.conc, tol := a.tol } }
-     | _, _ => none)
-  | .addSequence (some q) =>
-    if q.name = "" ∨ q.descr = "" then none else
-    (match z.blk, z.grp, z.sq with
-     | some _, none, none => some { z with sq := some q }
-     | _, _, _ => none)
-  | .addAction (some a) =>
-    if a.name = "" ∨ a.descr = "" ∨ a.plugin = "" then none else
-    (match z.grp, z.sq with
-     | some (k, c), _ => some { z with grp := some (k, addAct a c) }
-     | none, some q => some { z with sq := some { q with actions := q.actions ++ [a] } }
-     | none, none => none)
-  | .up =>
-    (match z.blk, z.grp, z.sq with
-     | none, some (k, c), _ => some { z with plan := z.plan.setGrp k (some c), grp := none }      -- close a plan-level group
-     | some b, some (k, c), _ => some { z with blk := some (b.setGrp k (some c)), grp := none }   -- close a block-level group
-     | some b, none, some q => some { z with blk := some { b with seqs := b.seqs ++ [q] }, sq := none }  -- close a sequence
-     | some b, none, none => some { z with plan := { z.plan with blocks := z.plan.blocks ++ [b] }, blk := none }  -- close a block
-     | none, none, _ => none)
-  | _ => none
 
 theorem modLast_append_single {α} (f : α → α) (l : List α) (x : α) : modLast f (l ++ [x]) = l ++ [f x] := by
   induction l with
@@ -106,5 +31,269 @@ theorem setGrp_with_blocks (p : Plan) (k : GKind) (c : Option Checks) (bs : List
     ({ p with blocks := bs } : Plan).setGrp k c = { p.setGrp k c with blocks := bs } := by cases k <;> rfl
 @[simp] theorem grp_with_seqs (b : Block) (k : GKind) (s : List Sequence) : ({ b with seqs := s } : Block).grp k = b.grp k := by cases k <;> rfl
 @[simp] theorem grp_with_blocks (p : Plan) (k : GKind) (bs : List Block) : ({ p with blocks := bs } : Plan).grp k = p.grp k := by cases k <;> rfl
+
+end Coercion.Builder
+
+namespace Coercion.Builder
+open Coercion
+
+/-- the Go builder's state that corresponds to a stack of open objects -/
+def absB (z : Z) : B := { plan := finish z, pos := some (posOf z), emitted := false, err := none }
+
+theorem getLast?_append_single {α} (l : List α) (x : α) : (l ++ [x]).getLast? = some x := by simp
+
+theorem sim_addChecks (z z' : Z) (k : Option GKind) (c : Option (Checks × Bool)) (hw : ZWF z)
+    (h : zstep z (.addChecks k c) = some z') : step (absB z) (.addChecks k c) = (absB z', .ok) ∧ ZWF z' := by
+  obtain ⟨plan, blk, grp, sq⟩ := z
+  cases k with
+  | none => simp [zstep] at h
+  | some k =>
+  cases c with
+  | none => simp [zstep] at h
+  | some cb =>
+  obtain ⟨c, hasNil⟩ := cb
+  cases hasNil with
+  | true => simp [zstep] at h
+  | false =>
+  cases blk with
+  | none =>
+    cases grp with
+    | some g => simp [zstep] at h
+    | none =>
+      simp only [zstep] at h
+      by_cases hd : (plan.grp k).isSome = true
+      · simp [hd] at h
+      · simp [hd] at h
+        subst h
+        refine ⟨?_, ?_⟩
+        · simp [step, pre, absB, finish, posOf, hd]
+        · intro hs; simp [ZWF] at hw hs ⊢; cases sq <;> simp_all
+  | some b =>
+    cases grp with
+    | some g => simp [zstep] at h
+    | none =>
+      cases sq with
+      | some q => simp [zstep] at h
+      | none =>
+        simp only [zstep] at h
+        by_cases hd : (b.grp k).isSome = true
+        · simp [hd] at h
+        · simp [hd] at h
+          subst h
+          refine ⟨?_, ?_⟩
+          · simp [step, pre, absB, finish, posOf, hd, closeGrpOnBlock, closeSeqOnBlock, Plan.modLastBlock, modLast_append_single]
+          · simp [ZWF]
+
+theorem sim_addBlock (z z' : Z) (a : BlockArgs) (hw : ZWF z)
+    (h : zstep z (.addBlock a) = some z') : step (absB z) (.addBlock a) = (absB z', .ok) ∧ ZWF z' := by
+  obtain ⟨plan, blk, grp, sq⟩ := z
+  simp only [zstep] at h
+  by_cases hn : a.name = ""
+  · simp [hn] at h
+  by_cases hd : a.descr = ""
+  · simp [hd] at h
+  cases blk with
+  | some b => simp [hn, hd] at h
+  | none =>
+    cases grp with
+    | some g => simp [hn, hd] at h
+    | none =>
+      simp [hn, hd] at h
+      subst h
+      have hs : sq = none := by cases sq <;> simp_all [ZWF]
+      subst hs
+      refine ⟨?_, by simp [ZWF]⟩
+      simp [step, pre, absB, finish, posOf, hn, hd, closeGrpOnBlock, closeSeqOnBlock]
+
+theorem sim_addSequence (z z' : Z) (q : Option Sequence) (hw : ZWF z)
+    (h : zstep z (.addSequence q) = some z') : step (absB z) (.addSequence q) = (absB z', .ok) ∧ ZWF z' := by
+  obtain ⟨plan, blk, grp, sq⟩ := z
+  cases q with
+  | none => simp [zstep] at h
+  | some q =>
+  simp only [zstep] at h
+  by_cases hn : q.name = ""
+  · simp [hn] at h
+  by_cases hd : q.descr = ""
+  · simp [hd] at h
+  cases blk with
+  | none => simp [hn, hd] at h
+  | some b =>
+    cases grp with
+    | some g => simp [hn, hd] at h
+    | none =>
+      cases sq with
+      | some q' => simp [hn, hd] at h
+      | none =>
+        simp [hn, hd] at h
+        subst h
+        refine ⟨?_, by simp [ZWF]⟩
+        simp [step, pre, absB, finish, posOf, hn, hd, closeGrpOnBlock, closeSeqOnBlock, Plan.modLastBlock, modLast_append_single]
+
+theorem sim_addAction (z z' : Z) (a : Option Action) (hw : ZWF z)
+    (h : zstep z (.addAction a) = some z') : step (absB z) (.addAction a) = (absB z', .ok) ∧ ZWF z' := by
+  obtain ⟨plan, blk, grp, sq⟩ := z
+  cases a with
+  | none => simp [zstep] at h
+  | some a =>
+  simp only [zstep] at h
+  by_cases hn : a.name = ""
+  · simp [hn] at h
+  by_cases hd : a.descr = ""
+  · simp [hd] at h
+  by_cases hp : a.plugin = ""
+  · simp [hp] at h
+  cases grp with
+  | some g =>
+    obtain ⟨k, c⟩ := g
+    simp [hn, hd, hp] at h
+    subst h
+    have hs : sq = none := by cases sq <;> simp_all [ZWF]
+    subst hs
+    refine ⟨?_, by simp [ZWF]⟩
+    cases blk with
+    | none => simp [step, pre, absB, finish, posOf, hn, hd, hp]
+    | some b => simp [step, pre, absB, finish, posOf, hn, hd, hp, closeGrpOnBlock, closeSeqOnBlock, Plan.modLastBlock, modLast_append_single]
+  | none =>
+    cases sq with
+    | none => simp [hn, hd, hp] at h
+    | some q =>
+      simp [hn, hd, hp] at h
+      subst h
+      cases blk with
+      | none => simp [ZWF] at hw
+      | some b =>
+        refine ⟨?_, by simp [ZWF]⟩
+        simp [step, pre, absB, finish, posOf, hn, hd, hp, closeGrpOnBlock, closeSeqOnBlock, Plan.modLastBlock, modLast_append_single]
+
+theorem sim_up (z z' : Z) (hw : ZWF z)
+    (h : zstep z .up = some z') : step (absB z) .up = (absB z', .ok) ∧ ZWF z' := by
+  obtain ⟨plan, blk, grp, sq⟩ := z
+  cases blk with
+  | none =>
+    cases grp with
+    | none => simp [zstep] at h
+    | some g =>
+      obtain ⟨k, c⟩ := g
+      simp [zstep] at h
+      subst h
+      have hs : sq = none := by cases sq <;> simp_all [ZWF]
+      subst hs
+      refine ⟨?_, by simp [ZWF]⟩
+      simp [step, pre, absB, finish, posOf]
+  | some b =>
+    cases grp with
+    | some g =>
+      obtain ⟨k, c⟩ := g
+      simp [zstep] at h
+      subst h
+      have hs : sq = none := by cases sq <;> simp_all [ZWF]
+      subst hs
+      refine ⟨?_, by simp [ZWF]⟩
+      simp [step, pre, absB, finish, posOf, closeGrpOnBlock, closeSeqOnBlock]
+    | none =>
+      cases sq with
+      | some q =>
+        simp [zstep] at h
+        subst h
+        refine ⟨?_, by simp [ZWF]⟩
+        simp [step, pre, absB, finish, posOf, closeGrpOnBlock, closeSeqOnBlock]
+      | none =>
+        simp [zstep] at h
+        subst h
+        refine ⟨?_, by simp [ZWF]⟩
+        simp [step, pre, absB, finish, posOf, closeGrpOnBlock, closeSeqOnBlock]
+
+theorem sim_step (z z' : Z) (c : Call) (hw : ZWF z) (h : zstep z c = some z') :
+    step (absB z) c = (absB z', .ok) ∧ ZWF z' := by
+  cases c with
+  | addChecks k c => exact sim_addChecks z z' k c hw h
+  | addBlock a => exact sim_addBlock z z' a hw h
+  | addSequence q => exact sim_addSequence z z' q hw h
+  | addAction a => exact sim_addAction z z' a hw h
+  | up => exact sim_up z z' hw h
+  | plan => simp [zstep] at h
+  | err => simp [zstep] at h
+  | reset _ _ _ _ => simp [zstep] at h
+
+theorem sim_run (cs : List Call) : ∀ (z z' : Z), ZWF z → zrun z cs = some z' →
+    run (absB z) (cs ++ [.plan]) = ({ absB z' with emitted := true }, cs.map (fun _ => Ret.ok) ++ [.planOut (finish z')]) := by
+  induction cs with
+  | nil =>
+    intro z z' _ h
+    simp [zrun] at h
+    subst h
+    simp [run, step, absB, isPanic]
+  | cons c cs ih =>
+    intro z z' hw h
+    simp only [zrun] at h
+    cases h1 : zstep z c with
+    | none => simp [h1] at h
+    | some z1 =>
+      simp [h1] at h
+      obtain ⟨hs, hw1⟩ := sim_step z z1 c hw h1
+      simp only [List.cons_append, run, hs, isPanic, List.map_cons]
+      rw [ih z1 z' hw1 h]
+      simp
+
+/-- a constructing call the reference has no meaning for is refused by the builder: it records an
+    error, returns it, and the hierarchy built so far is untouched -/
+theorem rejected_call_errors (z : Z) (c : Call) (hw : ZWF z) (hc : isCtor c = true) (h : zstep z c = none) :
+    ∃ e, step (absB z) c = ({ absB z with err := some e }, .err e) := by
+  obtain ⟨plan, blk, grp, sq⟩ := z
+  cases c with
+  | plan => simp [isCtor] at hc
+  | err => simp [isCtor] at hc
+  | reset _ _ _ _ => simp [isCtor] at hc
+  | up =>
+    cases blk <;> cases grp <;> cases sq <;> simp_all [zstep, ZWF]
+    all_goals simp [step, pre, absB, posOf, fail]
+  | addBlock a =>
+    by_cases hn : a.name = ""
+    · exact ⟨.missingField, by simp [step, pre, absB, fail, hn]⟩
+    by_cases hd : a.descr = ""
+    · exact ⟨.missingField, by simp [step, pre, absB, fail, hn, hd]⟩
+    cases blk <;> cases grp <;> cases sq <;> simp_all [zstep, ZWF]
+    all_goals simp [step, pre, absB, posOf, fail, hn, hd]
+  | addSequence q =>
+    cases q with
+    | none => exact ⟨.nilArg, by simp [step, pre, absB, fail]⟩
+    | some q =>
+    by_cases hn : q.name = ""
+    · exact ⟨.missingField, by simp [step, pre, absB, fail, hn]⟩
+    by_cases hd : q.descr = ""
+    · exact ⟨.missingField, by simp [step, pre, absB, fail, hn, hd]⟩
+    cases blk <;> cases grp <;> cases sq <;> simp_all [zstep, ZWF]
+    all_goals simp [step, pre, absB, posOf, fail, hn, hd]
+  | addAction a =>
+    cases a with
+    | none => exact ⟨.nilArg, by simp [step, pre, absB, fail]⟩
+    | some a =>
+    by_cases hn : a.name = ""
+    · exact ⟨.missingField, by simp [step, pre, absB, fail, hn]⟩
+    by_cases hd : a.descr = ""
+    · exact ⟨.missingField, by simp [step, pre, absB, fail, hn, hd]⟩
+    by_cases hp : a.plugin = ""
+    · exact ⟨.missingField, by simp [step, pre, absB, fail, hn, hd, hp]⟩
+    cases blk <;> cases grp <;> cases sq <;> simp_all [zstep, ZWF]
+    all_goals simp [step, pre, absB, posOf, fail, hn, hd, hp]
+  | addChecks k c =>
+    cases c with
+    | none => exact ⟨.nilArg, by simp [step, pre, absB, fail]⟩
+    | some cb =>
+    obtain ⟨c, hasNil⟩ := cb
+    cases hasNil with
+    | true => exact ⟨.nilArg, by simp [step, pre, absB, fail]⟩
+    | false =>
+    cases k with
+    | none =>
+      cases blk <;> cases grp <;> cases sq <;> simp_all [zstep, ZWF]
+      all_goals simp [step, pre, absB, posOf, fail]
+    | some k =>
+      cases blk <;> cases grp <;> cases sq <;> simp_all [zstep, ZWF]
+      all_goals simp [step, pre, absB, posOf, fail, finish, closeGrpOnBlock, closeSeqOnBlock, *]
+      all_goals
+        have h' := Option.isSome_iff_ne_none.mpr h
+        exact ⟨.dupGroup, by simp [h']⟩
 
 end Coercion.Builder
